@@ -248,6 +248,17 @@ def run_recon(case):
     n = int(np.prod(img))
     mps = crandn(rng, [nc] + img)
     xt = crandn(rng, img)
+    if case["oseed"] % 3 == 0:
+        # maps normalised to unit root-sum-of-squares (as ESPIRiT delivers them): an encoding
+        # operator of modest norm
+        mps = mps / np.sqrt(np.sum(np.abs(mps) ** 2, axis=0, keepdims=True))
+    if case["app"].startswith("sense") and case["oseed"] % 5 == 2 and case["solver"] != "ADMM":
+        # (ADMM's default penalty rho = 1 is not scale-free: its iteration budget is stated for
+        # operators of ordinary norm)
+        # maps of very small / large magnitude: the reconstruction scales inversely
+        msc = [1e-5, 1e3][(case["oseed"] // 5) % 2]
+        mps = mps * msc
+        xt = xt / msc
     traj = case["traj"]
     coord = None
     w = None
